@@ -996,6 +996,38 @@ fn gate_listing_case(np: usize, nq: usize, with_std: bool, out: &mut Vec<Failure
     text
 }
 
+/// Signatures in which a name occurs twice: the duplicate is reported, the recorded arity and
+/// parameter count are the written ones all the same.
+fn dup_signature_cases() -> Vec<(String, Vec<(String, usize, usize)>, Option<(String, usize)>)> {
+    vec![
+        ("gate dupa(a, b, a) q { }".into(), vec![("dupa".into(), 3, 1)], None),
+        ("gate dupq(t) q, r, q, s { }".into(), vec![("dupq".into(), 1, 4)], None),
+        ("gate dupm(a, b) a, c { }".into(), vec![("dupm".into(), 2, 2)], None),
+        ("gate dup2(a, a, a, a) q, q { }".into(), vec![("dup2".into(), 4, 2)], None),
+        ("def dupd(int[8] a, bit b, float[32] a, qubit q) -> bit { }".into(), vec![], Some(("dupd".into(), 4))),
+        ("def dupe(int a, int a) { }".into(), vec![], Some(("dupe".into(), 2))),
+    ]
+}
+
+fn dup_signature_case(text: &str, gates: &[(String, usize, usize)], def: &Option<(String, usize)>, out: &mut Vec<Failure>) {
+    if !clean_parse(text) {
+        return;
+    }
+    if let Ok(res) = analyze(text) {
+        let got: Vec<(String, usize, usize)> = res.symbol_table().gates().map(|(n, _, a, b)| (n.to_string(), a, b)).filter(|g| g.0 != "U").collect();
+        if &got != gates {
+            out.push(Failure::new("C09:gate-listing:duplicate-parameter-name", json!({"input": {"source": text}, "expected": format!("{gates:?}"), "actual": format!("{got:?}")})));
+        }
+        if let Some((name, n)) = def {
+            let found = res.symbol_table().verif_symbols().iter().find(|s| s.name() == name).map(|s| s.symbol_type().clone());
+            match found {
+                Some(Type::SubroutineDef(d)) if d.num_params == *n => {}
+                other => out.push(Failure::new("C09:subroutine-parameter-count:duplicate-parameter-name", json!({"input": {"source": text}, "expected": n, "actual": format!("{other:?}")}))),
+            }
+        }
+    }
+}
+
 /// A user gate that takes the name of a standard-library gate before the include: the first
 /// binding stays, the include reports the clash, and every other library gate is still listed.
 fn gate_clash_case(clash: &[&str], out: &mut Vec<Failure>) -> String {
@@ -1064,6 +1096,13 @@ pub fn replay_c09(v: &serde_json::Value) -> Result<Vec<Failure>, String> {
         let mut o = vec![];
         let names: Vec<&str> = cl.iter().map(|s| s.as_str()).collect();
         if gate_clash_case(&names, &mut o) == text {
+            return Ok(o);
+        }
+    }
+    for (t, gates, def) in dup_signature_cases() {
+        if t == text {
+            let mut o = vec![];
+            dup_signature_case(&t, &gates, &def, &mut o);
             return Ok(o);
         }
     }
@@ -1177,6 +1216,13 @@ pub fn run_c09(ctx: &RunCtx) {
                     ctx.eval_local("C09", &mut st, rep);
                 }
             }
+        }
+        for (text, gates, def) in dup_signature_cases() {
+            let mut rep = CaseReport::default();
+            dup_signature_case(&text, &gates, &def, &mut rep.failures);
+            rep.class("duplicate-parameter-name");
+            rep.nontrivial = Some(fnv64(text.as_bytes()));
+            ctx.eval_local("C09", &mut st, rep);
         }
         for cl in clash_sets() {
             let mut rep = CaseReport::default();
